@@ -118,7 +118,13 @@ def run(ctx):
             a = t['args'][2]
             if b.short == 'AutosarModel::load_buffer_internal':
                 continue
-            C.check(const_val(a) == 'false', 'C08-WHO-strict', 'ctor|%s' % b.short,
+            cv = const_val(a)
+            if cv is None and is_local_op(a):
+                # a named flag: `let strict = false; ArxmlParser::new(.., strict)` - every origin is the constant false
+                ogs = origins(b, a)
+                if ogs and all(og[0] == 'const' and const_val(og[1]) == 'false' for og in ogs):
+                    cv = 'false'
+            C.check(cv == 'false', 'C08-WHO-strict', 'ctor|%s' % b.short,
                     'a parser is constructed outside load_buffer_internal with a non-constant/true strict flag', where=b.where(pos),
                     sample={'ctor_in': b.short, 'strict_arg': const_val(a)})
     C.floor('C08-WHO-strict.ctors', nnew, 2)
@@ -321,11 +327,16 @@ def classify_result_flow(b, pos, t):
         return 'propagated'  # tail position: _0 = callee(..)
     if d['p']:
         return 'stored-in-place'
-    r = d['l']
+    return classify_local_flow(b, d['l'], pos, 4)
+
+
+def classify_local_flow(b, r, pos, depth):
+    """where does the Result held in local r go? (r = the destination of a call, or - in a body with an inlined helper - the helper's
+    return slot, which receives the residual of a `?` inside the helper and is `?`-ed again by the caller)"""
     taint = forward_taint(b, {r}, through_refs=False)
     branch_locals = set()
     verdict = None
-    uses = [(p, role, pl, st) for (p, role, pl, st) in uses_of_locals(b, taint) if role != 'def' and not (p == pos and role == 'calldst')]
+    uses = [(p, role, pl, st) for (p, role, pl, st) in uses_of_locals(b, taint) if role != 'def' and not (role == 'calldst' and (p == pos or depth < 4))]
     real = []
     for p, role, pl, st in uses:
         if role.startswith('use:') and st['k'] == 'assign' and not st['dst']['p'] and st['dst']['l'] in taint:
@@ -343,8 +354,11 @@ def classify_result_flow(b, pos, t):
                     res = s2['dst']['l']
                     rt = forward_taint(b, {res}, through_refs=False)
                     for p3, t3 in b.iter_calls():
-                        if call_matches(t3, r'FromResidual.*::from_residual$') and any(is_local_op(a) and a['l'] in rt for a in t3['args']) and t3['dst']['l'] == 0 and not t3['dst']['p']:
-                            ok = True
+                        if call_matches(t3, r'FromResidual.*::from_residual$') and any(is_local_op(a) and a['l'] in rt for a in t3['args']) and not t3['dst']['p']:
+                            if t3['dst']['l'] == 0:
+                                ok = True
+                            elif depth > 0 and getattr(b, 'inlined_ids', None) and classify_local_flow(b, t3['dst']['l'], p3, depth - 1) == 'propagated':
+                                ok = True        # the return slot of an inlined helper, propagated in turn by the caller
             if not ok:
                 return 'try-branch-without-from_residual'
             verdict = 'propagated'
@@ -605,6 +619,15 @@ def must_checks(C, P):
                     f_t = dict(tt['ts']).get('0')
                     if f_t is not None:
                         cut.add((tb, f_t))
+        # `if let Some(limit) = *max_length`: the None edge of a pattern test on the limit itself
+        from flow import deep_sources as _ds3
+        reach_ = pc.reach_from((arms[arm], 0), include_start=True)
+        for pos, st in pc.iter_stmts():
+            if pos in reach_ and st['k'] == 'assign' and st['rv']['k'] == 'discr' and 'Option<usize>' in (pc.local_ty(st['rv']['pl']['l']) or '').replace('std::option::', ''):
+                if any(f.endswith('max_length') for f in _ds3(pc, st['rv']['pl'], depth=8)[2]) or any(f.endswith('max_length') for f in [x[1:] for x in st['rv']['pl']['p'] if x.startswith('.')]):
+                    tt = pc.blocks[pos[0]]['term']
+                    if tt['k'] == 'switch' and is_local_op(tt['d']) and tt['d']['l'] == st['dst']['l']:
+                        cut.add((pos[0], dict(tt['ts']).get('0', tt['else'])))
         ok = must_pass(pc, (arms[arm], 0), accepts, gts, avoid_edges=cut)
         C.check(ok and bool(accepts), 'C08-MUST-checks', 'parse_character_data|%s value accepted|needs:length-test' % arm, 'a %s value can be accepted without the length test although a limit is specified' % arm, pc.where(accepts[0]) if accepts else '')
     dominating_calls(C, P, 'ArxmlParser::parse_character_data', 'String value accepted', str_ok, [
